@@ -1,7 +1,7 @@
 HOOK_COMMITS = []
 ENGINES = [
     {"name": "E1", "path": "mc/engine/core.py", "kind_free_text": "bounded exhaustive input enumeration of the real functions against set-of-bases / truth-table reference models, sharded over processes",
-     "serves_properties": ["C04"]},
+     "serves_properties": ["C01", "C04", "C08"]},
 ]
 NOT_APPLICABLE = {}
 CHECKS = {
@@ -11,4 +11,15 @@ CHECKS = {
                      "functions and compared with a set-of-bases reference; exhaustive within the bound, so every coincidence class of the "
                      "integer arithmetic is reached.",
                 note="Small-scope hypothesis (L <= 9 quick, <= 16 thorough); reference model in mc/ref/bases.py is trusted; Biopython location classes trusted."),
+    "C01": dict(engine="E1", level="exploration", ref="DESIGN.md 5/C01",
+                technique="bounded exhaustive enumeration of condition trees x gene worlds x hit assignments on the real evaluator vs truth-table semantics",
+                text="Every condition tree up to the leaf bound is evaluated by the real DetectionRule.detect and apply_cluster_rules on every "
+                     "gene world (boundary gaps around the cutoff, line/ring/origin) and every hit assignment, and compared with a 25-line "
+                     "truth-table semantics of the documented meaning; exhaustive within the bound.",
+                note="Bounds: <=2 leaves quick, <=3 thorough, <=2 neighbours; profile names interchangeable; reference semantics in mc/ref/rulesem.py trusted."),
+    "C08": dict(engine="E1", level="exploration", ref="DESIGN.md 5/C08",
+                technique="bounded exhaustive enumeration of gene layouts x query locations on the real Record vs brute-force set-of-bases predicates",
+                text="Every set of <=3-4 genes over all intervals of a tiny line/ring and every query location (simple and origin-spanning, both flags) "
+                     "is looked up through the real Record and compared with brute force over all genes.",
+                note="Small-scope (L<=12, <=4 genes); origin-spanning genes may be reported first or last for simple queries; build-order part shares the C06 state graph."),
 }
